@@ -18,6 +18,8 @@ import numpy as np
 from ..common import Snap
 from ..tlc import TLCError
 
+# violation keys of behaviour modelled beyond the statement of the property (reported, never an alarm)
+BEYOND = ("layout:",)
 INV = ["LoadAfterSaveEqual", "OpDictRoundTripDenotes", "OpDictRoundTripExact", "ReprParseDenotes"]
 # families of concrete literals for the specification's small integers (coefficient classes Python prints differently)
 FAMILIES = {
